@@ -29,6 +29,9 @@ package main
 //     opens that namespace inside its own body and would capture identifiers; prelude functions are referred to as Go.x;
 //   * whatever does not fit is reported in `untranslatedProg` and nothing is emitted for that function (nor for its
 //     callers), and no name is emitted twice, so the generated file is always well-formed.
+// The extensions of the subset for the text level (byte strings, lossy integer conversions, owned lists of structs,
+// dispatch of the interface parsley.File to text.File, `return` inside loops, `for {}`, receivers on field / list paths,
+// utf8 / bytes / fmt primitives, the external world `X : Ext`) are in progtext.go, with their own header.
 
 import (
 	"fmt"
@@ -54,6 +57,14 @@ var progTargets = []pgTarget{
 	{"text", "File", "Position"},
 	{"text", "Reader", "Remaining"}, {"text", "Reader", "IsEOF"}, {"text", "Reader", "Pos"}, {"text", "Reader", "SkipWhitespaces"},
 	{"parsley", "FileSet", "AddFile"}, {"parsley", "FileSet", "Position"},
+	// text level, second batch (progtext.go has the extensions of the subset these need)
+	{"text", "", "isWordCharacter"}, {"text", "Reader", "ReadRune"}, {"text", "Reader", "MatchString"}, {"text", "Reader", "MatchWord"},
+	{"text", "Reader", "ReadRegexp"}, {"text", "Reader", "Readf"},
+	{"parsley", "", "NewFileSet"}, {"text", "Position", "String"},
+	{"text/terminal", "", "unquoteString"},
+	// asked for, outside the subset (listed in untranslatedProg with the reason): calls methods of the opaque interfaces
+	// parsley.Error and parsley.Position
+	{"parsley", "FileSet", "ErrorWithPosition"},
 }
 
 type pgErr struct{ msg string }
@@ -66,6 +77,7 @@ type pgFn struct {
 	decl  *ast.FuncDecl
 	obj   *types.Func
 	inout bool // pointer receiver whose fields the body assigns: the receiver is returned
+	ext   bool // uses (directly or through a callee) a primitive of the external world `X : Ext` (regexp engine, strconv)
 	text  []string
 	deps  []*pgFn
 	err   string
@@ -78,6 +90,7 @@ type pgGen struct {
 	structs []string
 	sdone   map[string]bool
 	problem []string
+	impl    map[*types.TypeName]*types.Named // interface -> the struct type its method calls are dispatched to
 }
 
 // ---- the little target language ----
@@ -92,6 +105,12 @@ type pgIf struct {
 	a, b pgNode
 }
 type pgTerm struct{ code string }
+
+// the caller's side of a loop that may `return`: match scrut with | some name => some | none => none
+type pgMatchOpt struct {
+	scrut, name string
+	some, none  pgNode
+}
 
 func pgPrint(n pgNode, ind string, out *[]string) {
 	switch x := n.(type) {
@@ -114,6 +133,12 @@ func pgPrint(n pgNode, ind string, out *[]string) {
 		pgPrint(x.b, ind+"  ", out)
 	case *pgTerm:
 		*out = append(*out, ind+x.code)
+	case *pgMatchOpt:
+		*out = append(*out, ind+"match "+x.scrut+" with")
+		*out = append(*out, ind+"| some "+x.name+" =>")
+		pgPrint(x.some, ind+"  ", out)
+		*out = append(*out, ind+"| none =>")
+		pgPrint(x.none, ind+"  ", out)
 	}
 }
 
@@ -125,6 +150,8 @@ func pgInline(n pgNode) string {
 		return "if " + x.cond + " then (do " + pgInline(x.a) + ") else (do " + pgInline(x.b) + ")"
 	case *pgTerm:
 		return x.code
+	case *pgMatchOpt:
+		return "match " + x.scrut + " with | some " + x.name + " => (do " + pgInline(x.some) + ") | none => (do " + pgInline(x.none) + ")"
 	}
 	return ""
 }
@@ -143,6 +170,8 @@ type pgCtx struct {
 	nloop  *int
 	aux    *[]string
 	ret    func(vals []string) pgNode
+	retRaw func(term string) pgNode // return the term (of the function's whole result type) from where we are
+	resTy  string                   // the Lean type of the function's whole result
 	loops  []pgLoopK
 	inLit  *ast.FuncLit
 	recv   types.Object
@@ -159,7 +188,8 @@ var pgKeywords = map[string]bool{"fun": true, "do": true, "then": true, "else": 
 	"true": true, "false": true, "Type": true, "Prop": true, "Sort": true, "using": true, "calc": true, "obtain": true, "suffices": true,
 	// names the generated code refers to unqualified
 	"pure": true, "decide": true, "fuel": true, "rest": true, "none": true, "some": true, "Go": true, "M": true, "Sl": true, "Mp": true,
-	"St": true, "Res": true, "Obj": true, "Int": true, "Nat": true, "Bool": true, "String": true, "Unit": true, "List": true}
+	"St": true, "Res": true, "Obj": true, "Int": true, "Nat": true, "Bool": true, "String": true, "Unit": true, "List": true,
+	"X": true, "Ext": true, "Str": true, "Fmt": true, "Option": true}
 
 func (c *pgCtx) fresh(base string) string {
 	for pgKeywords[base] || c.taken[base] {
@@ -225,19 +255,31 @@ func pgStructOf(t types.Type) (*types.Named, *types.Struct) {
 	return n, s
 }
 
-func (g *pgGen) leanType(t types.Type) (string, bool) {
+// A Go string has two translations: a struct FIELD of type string is a Lean `String` (a name: opaque text), every other
+// string (parameter, local variable, result) is a byte string `Str`; the translator refuses any flow between the two.
+func (g *pgGen) leanType(t types.Type) (string, bool) { return g.leanTypeK(t, false) }
+
+func (g *pgGen) leanTypeK(t types.Type, field bool) (string, bool) {
 	switch {
 	case pgIsInt(t):
 		return "Int", true
 	case pgIsBool(t):
 		return "Bool", true
 	case pgIsString(t):
-		return "String", true
+		if field {
+			return "String", true
+		}
+		return "Str", true
 	}
 	switch u := t.Underlying().(type) {
 	case *types.Slice:
 		if pgIsInt(u.Elem()) {
 			return "Sl", true
+		}
+		if n, s := g.structOf(u.Elem()); n != nil { // a slice of (pointers to) structs is an owned Lean list
+			if st, ok := g.structType(n, s); ok {
+				return "List " + st, true
+			}
 		}
 	case *types.Map:
 		if pgIsInt(u.Key()) && pgIsInt(u.Elem()) {
@@ -261,7 +303,7 @@ func (g *pgGen) leanType(t types.Type) (string, bool) {
 		}
 		return "(" + s + "M " + r + ")", true
 	}
-	if n, s := pgStructOf(t); n != nil {
+	if n, s := g.structOf(t); n != nil {
 		return g.structType(n, s)
 	}
 	if types.IsInterface(t) {
@@ -320,7 +362,7 @@ func (g *pgGen) structType(n *types.Named, s *types.Struct) (string, bool) {
 	var fields []string
 	for i := 0; i < s.NumFields(); i++ {
 		f := s.Field(i)
-		if lt, ok := g.leanType(f.Type()); ok {
+		if lt, ok := g.leanTypeK(f.Type(), true); ok {
 			fields = append(fields, fmt.Sprintf("  %s : %s", pgField(f.Name()), lt))
 		}
 	}
@@ -344,11 +386,13 @@ func (c *pgCtx) zero(t types.Type) string {
 	case pgIsBool(t):
 		return "false"
 	case pgIsString(t):
-		return `""`
+		return "([] : Str)"
 	}
 	switch t.Underlying().(type) {
 	case *types.Slice:
-		c.typ(t)
+		if strings.HasPrefix(c.typ(t), "List ") {
+			return "[]"
+		}
 		return "Go.nilSl"
 	case *types.Map:
 		c.typ(t)
@@ -378,7 +422,11 @@ func (c *pgCtx) structLit(n *types.Named, s *types.Struct, given map[string]stri
 		}
 		v, has := given[f.Name()]
 		if !has {
-			v = c.zero(f.Type())
+			if pgIsString(f.Type()) {
+				v = `""`
+			} else {
+				v = c.zero(f.Type())
+			}
 		}
 		fs = append(fs, pgField(f.Name())+" := "+v)
 	}
@@ -445,11 +493,15 @@ func (c *pgCtx) parts(e ast.Expr) (pre []string, code string, mon bool) {
 	case *ast.IndexExpr:
 		a := c.atom(x.X, &pre)
 		i := c.atom(x.Index, &pre)
-		switch c.typ(c.info.TypeOf(x.X)) {
-		case "Sl":
+		switch xt := c.typ(c.info.TypeOf(x.X)); {
+		case xt == "Sl":
 			return pre, "Go.idx " + a + " " + pgP(i), true
-		case "Mp":
+		case xt == "Mp":
 			return pre, "Go.mapGet " + a + " " + pgP(i), true
+		case xt == "Str" && c.strKind(x.X) == pgBytes:
+			return pre, "Go.strIdx " + a + " " + pgP(i), true
+		case strings.HasPrefix(xt, "List "):
+			return pre, "Go.listIdx " + a + " " + pgP(i), true
 		}
 		pgFail("index into %s", norm(x.X))
 	case *ast.SliceExpr:
@@ -508,7 +560,9 @@ func (c *pgCtx) atom(e ast.Expr, pre *[]string) string {
 
 // pgP parenthesises a compound pure term for an argument position
 func pgP(s string) string {
-	if strings.HasPrefix(s, "decide ") || strings.HasPrefix(s, "Go.len ") || strings.HasPrefix(s, "Go.cap ") {
+	if strings.HasPrefix(s, "decide ") || strings.HasPrefix(s, "Go.len ") || strings.HasPrefix(s, "Go.cap ") ||
+		strings.HasPrefix(s, "Go.strLen ") || strings.HasPrefix(s, "Go.listLen ") || strings.HasPrefix(s, "Go.sprintf ") ||
+		strings.HasPrefix(s, "Go.lit ") || strings.HasPrefix(s, "Go.runeStr ") {
 		return "(" + s + ")"
 	}
 	return s
@@ -519,7 +573,10 @@ func (c *pgCtx) arg(e ast.Expr, want types.Type, pre *[]string) string {
 	if want != nil && c.info.Types[e].IsNil() {
 		return c.zero(want)
 	}
-	if want != nil && types.IsInterface(want) {
+	if want != nil && pgIsString(want) { // a parameter, a result: a byte string
+		return pgP(c.strVal(e, false, pre))
+	}
+	if want != nil && types.IsInterface(want) && c.g.implOf(want) == nil {
 		if have := c.info.TypeOf(e); have != nil && !types.IsInterface(have) {
 			var id *ast.Ident
 			ue := e
@@ -551,12 +608,11 @@ func (c *pgCtx) arg(e ast.Expr, want types.Type, pre *[]string) string {
 func (c *pgCtx) toObj(e ast.Expr, have types.Type, pre *[]string) string {
 	if nt, ok := have.(*types.Named); ok && nt.Obj().Pkg() != nil && (pgIsInt(have) || pgIsString(have)) {
 		// a value of a named integer/string type stored in an interface: the record of the type's name and the value
-		v := c.atom(e, pre)
 		tag := strconv.Quote(nt.Obj().Pkg().Name() + "." + nt.Obj().Name())
 		if pgIsInt(have) {
-			return "(Obj.mk " + tag + " [" + v + "] [] [])"
+			return "(Obj.mk " + tag + " [" + c.atom(e, pre) + "] [] [])"
 		}
-		return "(Obj.mk " + tag + " [] [" + v + "] [])"
+		return "(Obj.mk " + tag + " [] [" + c.strVal(e, true, pre) + "] [])" // the record holds text: a byte string is refused
 	}
 	n, st := pgStructOf(have)
 	if n == nil {
@@ -645,7 +701,12 @@ func (c *pgCtx) binary(x *ast.BinaryExpr) (pre []string, code string, mon bool) 
 				case "Obj":
 					r = a + ".isNil"
 				default:
-					pgFail("comparison %s with nil", norm(x))
+					if c.g.implOf(c.info.TypeOf(p[0])) == nil {
+						pgFail("comparison %s with nil", norm(x))
+					}
+					// a value of an interface whose calls are dispatched to one struct type is that struct: never nil
+					// (the nil case of the Go code is outside what the translated function is about)
+					r = "false"
 				}
 				if x.Op == token.NEQ {
 					r = "(!" + r + ")"
@@ -653,6 +714,15 @@ func (c *pgCtx) binary(x *ast.BinaryExpr) (pre []string, code string, mon bool) 
 				return pre, r, false
 			}
 		}
+	}
+	if pgIsString(tx) && pgIsString(ty) && (x.Op == token.EQL || x.Op == token.NEQ) {
+		text := c.strKind(x.X) == pgText || c.strKind(x.Y) == pgText
+		a := c.strVal(x.X, text, &pre)
+		b := c.strVal(x.Y, text, &pre)
+		if x.Op == token.EQL {
+			return pre, "decide (" + a + " = " + b + ")", false
+		}
+		return pre, "decide (" + a + " ≠ " + b + ")", false
 	}
 	a := c.atom(x.X, &pre)
 	b := c.atom(x.Y, &pre)
@@ -685,13 +755,27 @@ func (c *pgCtx) composite(x *ast.CompositeLit) (pre []string, code string, mon b
 	if n, s := pgStructOf(t); n != nil {
 		given := map[string]string{}
 		for i, el := range x.Elts {
+			name, val := s.Field(i).Name(), el
 			if kv, ok := el.(*ast.KeyValueExpr); ok {
-				given[kv.Key.(*ast.Ident).Name] = c.atom(kv.Value, &pre)
+				name, val = kv.Key.(*ast.Ident).Name, kv.Value
+			}
+			if pgIsString(c.info.TypeOf(val)) {
+				given[name] = c.strVal(val, true, &pre)
 			} else {
-				given[s.Field(i).Name()] = c.atom(el, &pre)
+				given[name] = c.atom(val, &pre)
 			}
 		}
 		return pre, c.structLit(n, s, given), false
+	}
+	if strings.HasPrefix(c.typ(t), "List ") {
+		var vs []string
+		for _, el := range x.Elts {
+			if _, ok := el.(*ast.KeyValueExpr); ok {
+				pgFail("keyed slice literal")
+			}
+			vs = append(vs, c.atom(el, &pre))
+		}
+		return pre, "[" + strings.Join(vs, ", ") + "]", false
 	}
 	if c.typ(t) == "Sl" {
 		var vs []string
@@ -716,11 +800,17 @@ func (c *pgCtx) closure(x *ast.FuncLit) string {
 	}
 	sub := *c
 	sub.loops, sub.inLit, sub.inSwch, sub.resT = nil, x, 0, sig.Results()
+	sub.resTy = ""
+	if rt, ok := c.g.resultType(sig, false, nil); ok {
+		sub.resTy = rt
+	}
+	sub.retRaw = func(term string) pgNode { return &pgTerm{"pure " + term} }
+	subp := &sub
 	sub.ret = func(vals []string) pgNode {
 		if len(vals) != sig.Results().Len() {
 			pgFail("naked return in a function literal")
 		}
-		return &pgTerm{pgTuple(vals, "pure ")}
+		return subp.retRaw(pgTuple(vals, ""))
 	}
 	hdr := "fun"
 	for _, f := range x.Type.Params.List {
@@ -735,7 +825,7 @@ func (c *pgCtx) closure(x *ast.FuncLit) string {
 	if hdr == "fun" {
 		hdr += " (_ : Unit)"
 	}
-	body := sub.stmts(x.Body.List, sub.ret0())
+	body := subp.stmts(x.Body.List, subp.ret0())
 	return "(" + hdr + " => do " + pgInline(body) + ")"
 }
 
@@ -775,7 +865,11 @@ func (c *pgCtx) callee(x *ast.CallExpr) (fn *pgFn, recv ast.Expr, obj types.Obje
 			}
 			obj, recv = sel.Obj(), f.X
 			if types.IsInterface(sel.Recv()) {
-				pgFail("call of the interface method %s", norm(f))
+				if m := c.g.dispatch(sel); m != nil { // the interface has one implementation here: its method is called
+					obj = m
+				} else {
+					pgFail("call of the interface method %s", norm(f))
+				}
 			}
 		} else {
 			obj = c.info.Uses[f.Sel]
@@ -793,14 +887,21 @@ func (c *pgCtx) call(x *ast.CallExpr) (pre []string, code string, mon bool) {
 	if c.info.Types[x.Fun].IsType() { // conversion
 		from, to := c.info.TypeOf(x.Args[0]), c.info.TypeOf(x.Fun)
 		if pgIsInt(from) && pgIsInt(to) {
+			if bits, signed, narrow := pgNarrowing(from, to); narrow { // the value may not fit: it wraps around
+				a := c.atom(x.Args[0], &pre)
+				return pre, fmt.Sprintf("(Go.wrap %d %t %s)", bits, signed, a), false
+			}
 			return c.parts(x.Args[0])
 		}
-		pgFail("conversion %s is outside the subset", norm(x))
+		return c.convert(x, from, to)
+	}
+	fn, recv, obj := c.callee(x)
+	if b, ok := obj.(*types.Builtin); ok && b.Name() == "append" && x.Ellipsis.IsValid() {
+		return c.appendSpread(x)
 	}
 	if x.Ellipsis.IsValid() {
 		pgFail("call with `...`: %s", norm(x))
 	}
-	fn, recv, obj := c.callee(x)
 	switch o := obj.(type) {
 	case *types.Builtin:
 		return c.builtin(o.Name(), x)
@@ -831,12 +932,20 @@ func (c *pgCtx) call(x *ast.CallExpr) (pre []string, code string, mon bool) {
 				return pre, "Go.search " + a + " " + c.atom(x.Args[1], &pre), true
 			}
 		}
+		if pre, code, mon, ok := c.external(o, x, recv); ok {
+			return pre, code, mon
+		}
 		if fn == nil && pgOpaqueCtor[o.FullName()] {
 			var ints, strs, objs []string
 			sig := o.Type().(*types.Signature)
 			for i, a := range x.Args {
 				pt := sig.Params().At(i).Type()
-				v := c.arg(a, pt, &pre)
+				var v string
+				if pgIsString(pt) {
+					v = c.strVal(a, true, &pre)
+				} else {
+					v = c.arg(a, pt, &pre)
+				}
 				switch {
 				case pgIsInt(pt):
 					ints = append(ints, v)
@@ -859,6 +968,9 @@ func (c *pgCtx) call(x *ast.CallExpr) (pre []string, code string, mon bool) {
 		}
 		c.fn.deps = append(c.fn.deps, fn)
 		var as []string
+		if fn.ext {
+			as = append(as, "X")
+		}
 		if recv != nil {
 			as = append(as, pgP(c.atom(recv, &pre)))
 		}
@@ -878,19 +990,29 @@ func (c *pgCtx) call(x *ast.CallExpr) (pre []string, code string, mon bool) {
 func (c *pgCtx) builtin(name string, x *ast.CallExpr) (pre []string, code string, mon bool) {
 	switch name {
 	case "len", "cap":
+		if name == "len" && pgIsString(c.info.TypeOf(x.Args[0])) {
+			return pre, "Go.strLen " + c.strVal(x.Args[0], false, &pre), false
+		}
 		a := c.atom(x.Args[0], &pre)
-		switch c.typ(c.info.TypeOf(x.Args[0])) {
-		case "Sl":
+		switch at := c.typ(c.info.TypeOf(x.Args[0])); {
+		case at == "Sl":
 			return pre, "Go." + name + " " + a, false
-		case "Mp":
+		case at == "Mp":
 			if name == "len" {
 				return pre, "Go.mapLen " + a, true
 			}
+		case strings.HasPrefix(at, "List ") && name == "len":
+			return pre, "Go.listLen " + a, false
 		}
 	case "append":
 		if len(x.Args) == 2 && c.typ(c.info.TypeOf(x.Args[0])) == "Sl" {
 			a := c.atom(x.Args[0], &pre)
 			return pre, "Go.append " + a + " " + pgP(c.atom(x.Args[1], &pre)), true
+		}
+		if len(x.Args) == 2 && strings.HasPrefix(c.typ(c.info.TypeOf(x.Args[0])), "List ") {
+			a := c.atom(x.Args[0], &pre)
+			el := c.info.TypeOf(x.Args[0]).Underlying().(*types.Slice).Elem()
+			return pre, "(" + a + " ++ [" + c.arg(x.Args[1], el, &pre) + "])", false
 		}
 	case "copy":
 		if c.typ(c.info.TypeOf(x.Args[0])) == "Sl" && c.typ(c.info.TypeOf(x.Args[1])) == "Sl" {
@@ -973,7 +1095,7 @@ func pgAssignedG(g *pgGen, info *types.Info, nodes ...ast.Node) []*types.Var {
 	seen := map[*types.Var]bool{}
 	var out []*types.Var
 	add := func(e ast.Expr) {
-		if id := pgRoot(e); id != nil {
+		if id := pgRootL(g, info, e); id != nil {
 			o := info.Uses[id]
 			if o == nil {
 				o = info.Defs[id]
@@ -1006,7 +1128,13 @@ func pgAssignedG(g *pgGen, info *types.Info, nodes ...ast.Node) []*types.Var {
 			case *ast.CallExpr:
 				if f, ok := s.Fun.(*ast.SelectorExpr); ok && g != nil {
 					if sel, ok := info.Selections[f]; ok && sel.Kind() == types.MethodVal {
-						if tf, ok := sel.Obj().(*types.Func); ok {
+						obj := sel.Obj()
+						if types.IsInterface(sel.Recv()) {
+							if m := g.dispatch(sel); m != nil {
+								obj = m
+							}
+						}
+						if tf, ok := obj.(*types.Func); ok {
 							if fn := g.byObj[tf]; fn != nil && fn.inout {
 								add(f.X)
 							}
@@ -1072,6 +1200,17 @@ func (c *pgCtx) assignPath(lhs ast.Expr, v string) string {
 			pgFail("assignment to %s", norm(lhs))
 		}
 		return c.assignPath(x.X, "{ "+base+" with "+pgField(sel.Obj().Name())+" := "+v+" }")
+	case *ast.IndexExpr: // an element of an owned list (the index was read before: it is in range)
+		if !strings.HasPrefix(c.typ(c.info.TypeOf(x.X)), "List ") {
+			pgFail("assignment to %s", norm(lhs))
+		}
+		var pre []string
+		base := c.atom(x.X, &pre)
+		i := c.atom(x.Index, &pre)
+		if len(pre) != 0 {
+			pgFail("assignment to %s", norm(lhs))
+		}
+		return c.assignPath(x.X, "("+base+".set (Int.toNat "+i+") "+v+")")
 	}
 	pgFail("assignment to %s is outside the subset", norm(lhs))
 	return ""
@@ -1079,6 +1218,20 @@ func (c *pgCtx) assignPath(lhs ast.Expr, v string) string {
 
 func (c *pgCtx) assign(lhs ast.Expr, rhs ast.Expr, op token.Token, k pgNode) pgNode {
 	var pre []string
+	if t := c.info.TypeOf(lhs); t != nil && pgIsString(t) && op == token.ILLEGAL { // text into a field, bytes into a variable
+		_, isField := lhs.(*ast.SelectorExpr)
+		v := c.strVal(rhs, isField, &pre)
+		return c.lets(append(pre, c.assignPath(lhs, v)), k)
+	}
+	if ix, ok := lhs.(*ast.IndexExpr); ok && strings.HasPrefix(c.typ(c.info.TypeOf(ix.X)), "List ") {
+		if op != token.ILLEGAL {
+			pgFail("assignment to %s", norm(lhs))
+		}
+		el := c.info.TypeOf(ix.X).Underlying().(*types.Slice).Elem()
+		pre = append(pre, "let _ ← Go.listIdx "+c.atom(ix.X, &pre)+" "+pgP(c.atom(ix.Index, &pre))) // the bounds check
+		v := c.arg(rhs, el, &pre)
+		return c.lets(append(pre, c.assignPath(lhs, v)), k)
+	}
 	if ix, ok := lhs.(*ast.IndexExpr); ok {
 		a := c.atom(ix.X, &pre)
 		i := c.atom(ix.Index, &pre)
@@ -1107,6 +1260,13 @@ func (c *pgCtx) assign(lhs ast.Expr, rhs ast.Expr, op token.Token, k pgNode) pgN
 	}
 	var v string
 	if op == token.ILLEGAL {
+		if call, ok := rhs.(*ast.CallExpr); ok && c.isInoutCall(call) {
+			p, vals := c.inoutCall(call)
+			if len(vals) != 1 {
+				pgFail("assignment %s", norm(rhs))
+			}
+			return c.lets(append(p, c.assignPath(lhs, vals[0])), k)
+		}
 		p, code, mon := c.parts(rhs)
 		pre = append(pre, p...)
 		if mon {
@@ -1166,6 +1326,12 @@ func (c *pgCtx) stmt(s ast.Stmt, k pgNode) pgNode {
 		return c.stmts(x.List, k)
 	case *ast.ReturnStmt:
 		var pre, vals []string
+		if len(x.Results) == 1 {
+			if call, ok := x.Results[0].(*ast.CallExpr); ok && c.isInoutCall(call) {
+				p, vs := c.inoutCall(call)
+				return c.lets(p, c.ret(vs))
+			}
+		}
 		for i, r := range x.Results {
 			var want types.Type
 			if c.resT != nil && i < c.resT.Len() {
@@ -1244,8 +1410,9 @@ func (c *pgCtx) stmt(s ast.Stmt, k pgNode) pgNode {
 		fn, recv, _ := c.callee(call)
 		if fn != nil && fn.inout {
 			id, ok := recv.(*ast.Ident)
-			if !ok {
-				pgFail("%s writes its receiver: the receiver %s must be a variable", fn.key, norm(recv))
+			if !ok || fn.ext {
+				p, _ := c.inoutCall(call)
+				return c.lets(p, k)
 			}
 			c.fn.deps = append(c.fn.deps, fn)
 			var pre []string
@@ -1434,6 +1601,10 @@ func (c *pgCtx) emitLoop(kind string, region []ast.Node, inside func(token.Pos) 
 	}
 	fixed = append(fixed, extraFixed...)
 	state = append(state, extraState...)
+	if c.fn.ext {
+		fixed = append([]pgVar{{"X", "Ext"}}, fixed...)
+	}
+	hasRet := pgHasReturn(region)
 	*c.nloop++
 	name := fmt.Sprintf("%s_loop%d", c.fn.key, *c.nloop)
 	var fx, fxn, stn, stt, wild []string
@@ -1453,10 +1624,25 @@ func (c *pgCtx) emitLoop(kind string, region []ast.Node, inside func(token.Pos) 
 		resT = "(" + strings.Join(stt, " × ") + ")"
 	}
 	done := &pgTerm{pgTuple(stn, "pure ")}
+	var oldRaw func(string) pgNode
+	if hasRet {
+		// a `return` inside the loop: the loop function answers (some result, state) there and (none, state) at its
+		// normal exit; the caller returns the result or goes on
+		if c.resTy == "" {
+			pgFail("return inside a loop of a function literal")
+		}
+		resT = "(Option " + pgAtomT(c.resTy) + " × " + resT + ")"
+		done = &pgTerm{"pure (none, " + pgTuple(stn, "") + ")"}
+		oldRaw = c.retRaw
+		c.retRaw = func(term string) pgNode { return &pgTerm{"pure (some (" + term + "), " + pgTuple(stn, "") + ")"} }
+	}
 	call := func(first string) pgNode {
 		return &pgTerm{strings.Join(append(append([]string{name}, fxn...), append([]string{first}, stn...)...), " ")}
 	}
 	b := body(name, call, done)
+	if hasRet {
+		c.retRaw = oldRaw
+	}
 	var lines []string
 	pgPrint(b, "    ", &lines)
 	sig := strings.Join(append([]string{kind}, stt...), " → ")
@@ -1471,6 +1657,14 @@ func (c *pgCtx) emitLoop(kind string, region []ast.Node, inside func(token.Pos) 
 	step := "  | " + strings.Join(append([]string{firstPat}, stn...), ", ") + " => do\n"
 	*c.aux = append(*c.aux, hdr+"\n"+base+step+strings.Join(lines, "\n")+"\n")
 	run := strings.Join(append(append([]string{name}, fxn...), append([]string{first}, stn...)...), " ")
+	if hasRet {
+		rv, r := c.tmp(), c.tmp()
+		pat := "(" + strings.Join(append([]string{rv}, stn...), ", ") + ")"
+		if len(stn) == 0 {
+			pat = "(" + rv + ", _)"
+		}
+		return &pgLet{"let " + pat + " ← " + run, &pgMatchOpt{rv, r, c.retRaw(r), pgForce(k)}}
+	}
 	switch len(stn) {
 	case 0:
 		return &pgLet{run, pgForce(k)}
@@ -1481,11 +1675,12 @@ func (c *pgCtx) emitLoop(kind string, region []ast.Node, inside func(token.Pos) 
 }
 
 func (c *pgCtx) forLoop(x *ast.ForStmt, k pgNode) pgNode {
-	if x.Cond == nil {
-		pgFail("loop without a condition")
-	}
 	var atoms []string
-	c.fuelAtoms(x.Cond, false, &atoms)
+	if x.Cond == nil {
+		atoms = c.guardFuel(x)
+	} else {
+		c.fuelAtoms(x.Cond, false, &atoms)
+	}
 	if len(atoms) == 0 {
 		pgFail("no fuel bound for the loop condition %s", norm(x.Cond))
 	}
@@ -1507,6 +1702,9 @@ func (c *pgCtx) forLoop(x *ast.ForStmt, k pgNode) pgNode {
 			body := c.stmts(x.Body.List, again)
 			c.inSwch = sw
 			c.loops = c.loops[:len(c.loops)-1]
+			if x.Cond == nil {
+				return body
+			}
 			var pre []string
 			cond := c.atom(x.Cond, &pre)
 			return c.lets(pre, &pgIf{cond, body, done})
@@ -1542,6 +1740,16 @@ func (c *pgCtx) rangeLoop(x *ast.RangeStmt, k pgNode) pgNode {
 		c.inSwch = sw
 		c.loops = c.loops[:len(c.loops)-1]
 		return b
+	}
+	if lt := c.typ(c.info.TypeOf(x.X)); strings.HasPrefix(lt, "List ") { // an owned list: recursion over it
+		if kv != "_" {
+			pgFail("range over a list of structs with an index variable")
+		}
+		n := c.emitLoop(pgAtomT(lt), []ast.Node{x.Body}, inside, nil, nil, coll, vv+" :: rest",
+			func(name string, call func(string) pgNode, done pgNode) pgNode {
+				return runBody(call("rest"), done)
+			}, k)
+		return c.lets(pre, n)
 	}
 	switch c.typ(c.info.TypeOf(x.X)) {
 	case "Sl":
@@ -1619,6 +1827,8 @@ func (g *pgGen) translate(fn *pgFn) {
 		pgFail("result type %s is outside the subset", types.TypeString(sig.Results(), qual))
 	}
 	c.resT = sig.Results()
+	c.resTy = resT
+	c.retRaw = func(term string) pgNode { return &pgTerm{"pure " + term} }
 	c.ret = func(vals []string) pgNode {
 		if len(vals) != sig.Results().Len() {
 			pgFail("the end of the body is reachable but the function has results")
@@ -1626,7 +1836,10 @@ func (g *pgGen) translate(fn *pgFn) {
 		if fn.inout {
 			vals = append([]string{recvName}, vals...)
 		}
-		return &pgTerm{pgTuple(vals, "pure ")}
+		return c.retRaw(pgTuple(vals, ""))
+	}
+	if fn.ext {
+		params = append([]string{"(X : Ext)"}, params...)
 	}
 	body := c.stmts(fn.decl.Body.List, c.ret0())
 	var lines []string
@@ -1644,6 +1857,7 @@ func writeProgFacts(path string) error {
 	l := &concLoader{fset: fset, module: readModulePath(repo), root: repo, pkgs: map[string]*concPkg{}, loading: map[string]bool{}}
 	l.std = importer.ForCompiler(fset, "source", nil)
 	var bad []string
+	bad = append(bad, g.resolveImpl(l)...)
 	for _, t := range progTargets {
 		key := t.name
 		if t.recv != "" {
@@ -1705,6 +1919,7 @@ func writeProgFacts(path string) error {
 			}
 		}
 	}
+	g.markExt()
 	for _, fn := range g.fns {
 		g.translate(fn)
 	}
